@@ -47,7 +47,7 @@ ASSUMPTIONS = [
     "through every derivation); they are function symbols in the theorems",
     "path strings are ASCII (int() also accepts non-ASCII digits and spaces; not generated, not modelled)",
     "the retry loop of subkey_secret_exponent_chain_code_pair is run with fuel 64 by the model driver",
-    "#E(secp256k1) = n is not provable here: theorems quantify over keys k*G, whose order divides n (C02_order_G_secp256k1)",
+    "theorems quantify over keys k*G, whose order divides n (C02_order_G_secp256k1); #E(secp256k1) = n itself is proved in C02 (C02_card_points_secp256k1)",
 ]
 TRUSTED = ["translate/gen_networks.py reads the bip32/49/84 prefixes from ParseAPI and by probing the bipNN_as_string closures",
            "harness reference: own affine secp256k1 arithmetic + hashlib/hmac (used by the oracle only)"]
